@@ -7,6 +7,11 @@ Import ListNotations.
 
 Lemma bind_Ok {A B} (r : Res A) (f : A -> Res B) b : bind r f = Ok b -> exists a, r = Ok a /\ f a = Ok b.
 Proof. destruct r; simpl; intros H; [eauto|discriminate]. Qed.
+Lemma last_cons_dflt {A} (l : list A) : forall x d, last (x :: l) d = last l x.
+Proof.
+  induction l as [|y l IH]; intros x d; [reflexivity|].
+  change (last (x :: y :: l) d) with (last (y :: l) d). rewrite (IH y d), (IH y x). reflexivity.
+Qed.
 Ltac bk H x E := cbv zeta in H; apply bind_Ok in H; destruct H as [x [E H]].
 
 Section Structural.
@@ -300,6 +305,27 @@ Section Structural.
       + intros popt. rewrite H1. apply final_curve_step.
       + rewrite H2. apply curve_step_pure_len.
       + auto.
+  Qed.
+
+  (* the per-evaluation trace is the very fold the call performs: its last state is the one _post_fitting starts from *)
+  Lemma evals_states_run c p so fa var_save evs : forall s l, evals_states O c p so fa var_save evs s = Ok l ->
+    length l = length evs /\ run_evals O c p so fa var_save evs s = Ok (last l s).
+  Proof.
+    induction evs as [|a r IH]; intros s l H; simpl in H.
+    - inversion H; subst; auto.
+    - bk H s1 E. bk H l1 E'. inversion H; subst. apply IH in E'. destruct E' as [L R]. simpl. rewrite E. simpl.
+      split; [simpl; congruence|]. rewrite R. f_equal. symmetry. apply last_cons_dflt.
+  Qed.
+  Lemma evals_states_step c p so fa var_save evs : forall s l, evals_states O c p so fa var_save evs s = Ok l ->
+    forall k, k < length evs ->
+      nth k l s = curve_step_pure c p so fa var_save (match k with 0 => s | S k' => nth k' l s end) (nth k evs []).
+  Proof.
+    induction evs as [|a r IH]; intros s l H k Hk; simpl in *; [lia|].
+    bk H s1 E. bk H l1 E'. inversion H; subst. apply curve_step_ok in E. destruct E as [E _].
+    destruct k as [|k]; simpl; auto.
+    rewrite (nth_indep _ s s1) by (apply evals_states_run in E'; destruct E' as [L _]; lia).
+    rewrite (IH _ _ E' k) by lia. destruct k; auto.
+    rewrite (nth_indep _ s s1); auto. apply evals_states_run in E'. destruct E' as [L _]. lia.
   Qed.
 
   (* ---------- the whole call after _pre_para *)
